@@ -22,6 +22,42 @@ use core::ops::{AddAssign, BitOrAssign, ShlAssign};
 
 type ConstType = I9F23;
 
+/// Verification hooks: a loop-iteration counter with an optional budget.
+/// Compiled only under `--cfg substrate_fixed_verif`.
+#[cfg(substrate_fixed_verif)]
+pub mod verif_hooks {
+    use core::sync::atomic::{AtomicU64, Ordering};
+    static TICKS: AtomicU64 = AtomicU64::new(0);
+    static BUDGET: AtomicU64 = AtomicU64::new(u64::MAX);
+    /// Resets the loop-iteration counter to zero.
+    pub fn reset() {
+        TICKS.store(0, Ordering::Relaxed);
+    }
+    /// Returns the number of loop iterations counted since the last reset.
+    pub fn read() -> u64 {
+        TICKS.load(Ordering::Relaxed)
+    }
+    /// Sets the iteration budget; exceeding it panics with a sentinel message.
+    pub fn set_budget(budget: u64) {
+        BUDGET.store(budget, Ordering::Relaxed);
+    }
+    /// Counts one loop iteration.
+    #[inline]
+    pub fn tick() {
+        let t = TICKS.fetch_add(1, Ordering::Relaxed) + 1;
+        if t > BUDGET.load(Ordering::Relaxed) {
+            panic!("substrate_fixed_verif: iteration budget exceeded");
+        }
+    }
+}
+
+macro_rules! verif_tick {
+    () => {
+        #[cfg(substrate_fixed_verif)]
+        verif_hooks::tick();
+    };
+}
+
 /// zero
 pub const ZERO: I9F23 = I9F23::from_bits(0i32 << 23);
 /// one
@@ -154,6 +190,7 @@ where
     // Newton iterations
     let mut l = (operand / D::from_num(2)) + D::from_num(1);
     for _i in 0..D::frac_nbits() {
+        verif_tick!();
         l = (l + operand / l) / D::from_num(2);
     }
     if invert {
@@ -178,6 +215,7 @@ where
     let lsb = (D::from_num(1) >> D::frac_nbits()).to_bits();
 
     while x >= TWO {
+        verif_tick!();
         result += lsb;
         x = rs(x);
     }
@@ -187,6 +225,7 @@ where
     };
 
     for _i in (0..D::frac_nbits()).rev() {
+        verif_tick!();
         x *= x;
         result <<= lsb;
         if x >= TWO {
@@ -248,6 +287,7 @@ where
     let mut term = operand;
 
     for i in 2..D::frac_nbits() {
+        verif_tick!();
         term = if let Some(r) = term.checked_mul(operand) {
             r
         } else {
@@ -358,6 +398,7 @@ where
     T: FixedSigned + PartialOrd<ConstType> + LossyFrom<U0F128>,
 {
     for (angle, i) in ARCTAN_ANGLES.iter().cloned().zip(0..) {
+        verif_tick!();
         let angle = T::lossy_from(angle);
         //if z == ZERO {
         //    break;
@@ -390,9 +431,11 @@ where
 {
     //wraparound
     while angle > PI {
+        verif_tick!();
         angle -= T::lossy_from(TWO_PI);
     }
     while angle < -PI {
+        verif_tick!();
         angle += T::lossy_from(TWO_PI);
     }
     //mirror
